@@ -3,6 +3,7 @@
 -/
 import CorgiProofs.Broadcast
 import CorgiProofs.Ewise
+import CorgiProofs.Composite
 
 set_option linter.unusedSectionVars false
 
@@ -62,6 +63,14 @@ example : (⟨[2, 1, 2], [1, 2, 3, (4 : Nat)]⟩ : Tensor Nat).WF ∧ (⟨[2, 2]
 example : Compat [2, 1, 2] [2, 2] = true ∧ bdims [2, 1, 2] [2, 2] = [2, 2, 2] := by decide
 example : Compat [2, 3] [2] = false := by decide
 
+
+/-- **The executed path** of subtraction and `axpy` (two recorded nodes each): whenever the command
+    returns a handle, the array it denotes is the broadcast formula above. -/
+theorem C04_sub_axpy_executed [BEq S] (σ σ' : State S) (a b r : Handle) (s : S) :
+    (a.buf < σ.bufs.size → hSub σ a b = .ok (σ', r) → sub (σ.tensorOf a) (σ.tensorOf b) = .ok (σ'.tensorOf r)) ∧
+    (b.buf < σ.bufs.size → hAxpy σ s a b = .ok (σ', r) → axpy s (σ.tensorOf a) (σ.tensorOf b) = .ok (σ'.tensorOf r)) :=
+  ⟨fun ha hok => (sound_hSub σ a b ha σ' r hok).1, fun hb hok => (sound_hAxpy σ s a b hb σ' r hok).1⟩
+
 end Corgi
 
 #print axioms Corgi.C04_dims
@@ -74,3 +83,4 @@ end Corgi
 #print axioms Corgi.C04_sub
 #print axioms Corgi.C04_axpy
 #print axioms Corgi.C04_result_dims
+#print axioms Corgi.C04_sub_axpy_executed
